@@ -7,20 +7,20 @@ import ChessVerif.Proofs.SearchScoreQ
 namespace ChessVerif
 namespace Search
 
-variable {σ π : Type} [PsInv σ]
+variable {σ π : Type} [PsInv σ] {t0 : Bool}
 
 /-- what an alphaBeta-like function guarantees about scores — guarded by the ghost flag (see `QRange`). -/
-def ABRange (Good : Board → Prop) (TTok : σ → Prop) (child : Child σ) : Prop :=
-  ∀ a b d ply nt s, Good s.board → 0 ≤ ply → ply ≤ 63 → (s.nmpOut = false → WinOK a b) → TTA TTok s →
-    TTA TTok (child a b d ply nt s).2 ∧
+def ABRange (Good : Board → Prop) (TTok : σ → Prop) (t0 : Bool) (child : Child σ) : Prop :=
+  ∀ a b d ply nt s, Good s.board → 0 ≤ ply → ply ≤ 63 → (s.nmpOut = false → WinOK a b) → TTA TTok t0 s →
+    TTA TTok t0 (child a b d ply nt s).2 ∧
       ((child a b d ply nt s).2.aborted = false → (child a b d ply nt s).2.nmpOut = false →
         RelP ply (child a b d ply nt s).1)
 
-theorem callChild_range {Good : Board → Prop} {TTok : σ → Prop} (child : Child σ) (hr : ABRange Good TTok child)
+theorem callChild_range {Good : Board → Prop} {TTok : σ → Prop} (child : Child σ) (hr : ABRange Good TTok t0 child)
     (a b : Score) (d : Int) {ply : Int} (h0 : 0 ≤ ply) (h1 : ply < 63) (nt : NodeType) (s : St σ) (hg : Good s.board)
-    (hw : s.nmpOut = false → WinOK a b) (htt : TTA TTok s) :
+    (hw : s.nmpOut = false → WinOK a b) (htt : TTA TTok t0 s) :
     let o := callChild child a b d (wrapS8 (ply + 1)) nt s
-    TTA TTok o.2 ∧ (o.2.aborted = false → o.2.nmpOut = false → RelP ply o.1) := by
+    TTA TTok t0 o.2 ∧ (o.2.aborted = false → o.2.nmpOut = false → RelP ply o.1) := by
   have := hr a b d (wrapS8 (ply + 1)) nt s hg (by rw [wrapS8_succ h0 h1]; omega) (by rw [wrapS8_succ h0 h1]; omega) hw htt
   have e := wrapS8_succ h0 h1
   generalize wrapS8 (ply + 1) = q at this e ⊢
@@ -28,11 +28,11 @@ theorem callChild_range {Good : Board → Prop} {TTok : σ → Prop} (child : Ch
   exact ⟨this.1, fun h hA => neg_relP h0 (this.2 h hA)⟩
 
 theorem searchRest_range (c : Comp σ π) (L : Limits) {Good : Board → Prop} {TTok : σ → Prop} (child : Child σ)
-    (hc : ABSpec c L Good child) (hr : ABRange Good TTok child) (x : ABCtx) (l : ABLoop π) (next : NodeType) (s : St σ)
-    (hg : Good s.board) (h0 : 0 ≤ x.ply) (h1 : x.ply < 63) (htt : TTA TTok s)
+    (hc : ABSpec c L Good child) (hr : ABRange Good TTok t0 child) (x : ABCtx) (l : ABLoop π) (next : NodeType) (s : St σ)
+    (hg : Good s.board) (h0 : 0 ≤ x.ply) (h1 : x.ply < 63) (htt : TTA TTok t0 s)
     (hn : s.nmpOut = false → -10001 ≤ l.alpha ∧ l.alpha ≤ 10000 ∧ -10000 ≤ x.beta ∧ x.beta ≤ 32767) :
     let o := searchRest child x l next s
-    TTA TTok o.2 ∧ (o.2.aborted = false → o.2.nmpOut = false → RelP x.ply o.1) := by
+    TTA TTok t0 o.2 ∧ (o.2.aborted = false → o.2.nmpOut = false → RelP x.ply o.1) := by
   simp only [searchRest]
   have c2 := callChild_post c L child hc (wrapS16 (neg l.alpha - 1)) (neg l.alpha) (wrapS8 (x.d - 1)) h0 h1 next s hg htt.1
   have r2 := callChild_range child hr (wrapS16 (neg l.alpha - 1)) (neg l.alpha) (wrapS8 (x.d - 1)) h0 h1 next s hg
@@ -51,12 +51,12 @@ theorem searchRest_range (c : Comp σ π) (L : Limits) {Good : Board → Prop} {
 
 theorem searchMove_range (c : Comp σ π) (L : Limits) {Good : Board → Prop} {TTok : σ → Prop} {μ : Board → Nat}
     (sl : ScoreLaws c Good TTok μ) (child : Child σ)
-    (hc : ABSpec c L Good child) (hr : ABRange Good TTok child) (x : ABCtx) (l : ABLoop π) (next : NodeType) (s : St σ)
-    (hg : Good s.board) (h0 : 0 ≤ x.ply) (h1 : x.ply < 63) (htt : TTA TTok s)
+    (hc : ABSpec c L Good child) (hr : ABRange Good TTok t0 child) (x : ABCtx) (l : ABLoop π) (next : NodeType) (s : St σ)
+    (hg : Good s.board) (h0 : 0 ≤ x.ply) (h1 : x.ply < 63) (htt : TTA TTok t0 s)
     (hn : s.nmpOut = false → -32767 ≤ l.alpha ∧ l.alpha ≤ 10000 ∧ (2 ≤ l.quietCnt → -10000 ≤ l.alpha) ∧
       -10000 ≤ x.beta ∧ x.beta ≤ 32767) :
     let o := searchMove c child x l next s
-    TTA TTok o.2 ∧ (o.2.aborted = false → o.2.nmpOut = false → RelP x.ply o.1) := by
+    TTA TTok t0 o.2 ∧ (o.2.aborted = false → o.2.nmpOut = false → RelP x.ply o.1) := by
   simp only [searchMove]
   split
   · next hlmr =>
@@ -184,38 +184,60 @@ theorem abAfter_nmpOut (c : Comp σ π) (L : Limits) (x : ABCtx) (m : Move) (r :
       · split <;> exact han
     · split <;> exact han
 
+/-- `abAfter` does not raise the flag `ttOut` when the value it may store is ply-consistent. -/
+theorem abAfter_ttOut_keep (c : Comp σ π) (L : Limits) (x : ABCtx) (m : Move) (r : Board.Reverse) (l : ABLoop π)
+    (value : Score) (s : St σ) (hv : s.aborted = false → RelP x.ply value) (ht : s.ttOut = false) :
+    (abAfter c L x m r l value s).2.ttOut = false := by
+  simp only [abAfter]
+  have han : (abort L (s.setBoard (s.board.undoMove m r)).pop).2.ttOut = s.ttOut := abort_ttOut L _
+  have hfa := @abort_false σ _ L (s.setBoard (s.board.undoMove m r)).pop
+  generalize abort L (s.setBoard (s.board.undoMove m r)).pop = as at han hfa ⊢
+  have hT : as.2.ttOut = false := by rw [han]; exact ht
+  split
+  · exact hT
+  · next hab =>
+    have hab' : as.1 = false := by simpa using hab
+    have hvp : RelP x.ply value := hv (by simpa using (hfa hab').2)
+    split
+    · split
+      · exact flagTT_keep hT (not_bad_of_relP hvp)
+      · split <;> exact hT
+    · split <;> exact hT
+
 /-- `abAfter`, guarded by the ghost flag. -/
 theorem abAfter_range (c : Comp σ π) (L : Limits) {Good : Board → Prop} {TTok : σ → Prop} {μ : Board → Nat}
     (hlw : Laws c Good) (sl : ScoreLaws c Good TTok μ) (x : ABCtx) (m : Move) (r : Board.Reverse)
-    (l : ABLoop π) (value : Score) (s : St σ) (alpha0 : Int) (h0 : 0 ≤ x.ply) (h1 : x.ply < 63) (htt : TTA TTok s)
+    (l : ABLoop π) (value : Score) (s : St σ) (alpha0 : Int) (h0 : 0 ≤ x.ply) (h1 : x.ply < 63) (htt : TTA TTok t0 s)
     (hgb : Good (s.board.undoMove m r)) (hmb : m ∈ MoveGen.gen (s.board.undoMove m r))
     (hv : s.aborted = false → s.nmpOut = false → RelP x.ply value) (hleg : l.hasLegal = true)
     (hn : s.nmpOut = false → -32767 ≤ l.alpha ∧ l.alpha ≤ 10000 ∧ (InR l.maxim ∨ l.maxim = -10001) ∧
       (RelP x.ply l.maxim ∨ l.maxim = -10001) ∧ l.quietCnt ≤ l.moveCnt ∧ 1 ≤ l.moveCnt ∧
       (l.failLow = true → l.alpha = alpha0 ∧ (l.maxim = -10001 ∨ l.maxim ≤ l.alpha))) :
     let o := abAfter c L x m r l value s
-    TTA TTok o.2 ∧ (∀ v, o.1 = .ret v → o.2.aborted = false → o.2.nmpOut = false → RelP x.ply v) ∧
+    TTA TTok t0 o.2 ∧ (∀ v, o.1 = .ret v → o.2.aborted = false → o.2.nmpOut = false → RelP x.ply v) ∧
       (∀ l', (o.1 = .cont l' ∨ o.1 = .brk l') → o.2.nmpOut = false → ABInv x.ply alpha0 l') := by
   intro o
   have han : o.2.nmpOut = s.nmpOut := abAfter_nmpOut c L x m r l value s
   have hsp := abAfter_spec c L hlw x m r l value s hgb hmb
   have core := fun (hA : s.nmpOut = false) =>
-    abAfter_range0 c L hlw sl x m r l value s alpha0 h0 h1 (htt.2 hA) hgb hmb (fun hab => hv hab hA)
+    abAfter_range0 c L hlw sl x m r l value s alpha0 h0 h1 (htt.2 hA).1 hgb hmb (fun hab => hv hab hA)
       (hn hA).1 (hn hA).2.1 (hn hA).2.2.1 (hn hA).2.2.2.1 (hn hA).2.2.2.2.1 (hn hA).2.2.2.2.2.1 hleg (hn hA).2.2.2.2.2.2
-  refine ⟨⟨hsp.1.ps_ok htt.1, fun hA => (core (by rw [← han]; exact hA)).1⟩,
+  refine ⟨⟨hsp.1.ps_ok htt.1, fun hA => ⟨(core (by rw [← han]; exact hA)).1, fun ht =>
+      abAfter_ttOut_keep c L x m r l value s (fun hab => hv hab (by rw [← han]; exact hA))
+        ((htt.2 (by rw [← han]; exact hA)).2 ht)⟩⟩,
     fun v hv' hna hA => (core (by rw [← han]; exact hA)).2.1 v hv' hna,
     fun l' hl' hA => (core (by rw [← han]; exact hA)).2.2 l' hl'⟩
 
 theorem abLoop_range (c : Comp σ π) (L : Limits) {Good : Board → Prop} {TTok : σ → Prop} {μ : Board → Nat}
     (hl : Laws c Good) (sl : ScoreLaws c Good TTok μ) (child : Child σ)
-    (hc : ABSpec c L Good child) (hr : ABRange Good TTok child) (x : ABCtx) (h0 : 0 ≤ x.ply) (h1 : x.ply < 63)
+    (hc : ABSpec c L Good child) (hr : ABRange Good TTok t0 child) (x : ABCtx) (h0 : 0 ≤ x.ply) (h1 : x.ply < 63)
     (hmv : Move) (alpha0 : Int) :
     ∀ (n : Nat) (l : ABLoop π) (s : St σ), Good s.board → s.board.fifty < 100 → HashOK c s.board hmv →
-      Reach c s.board hmv l.pick l.yielded → TTA TTok s →
+      Reach c s.board hmv l.pick l.yielded → TTA TTok t0 s →
       (s.nmpOut = false → -10000 ≤ x.beta ∧ x.beta ≤ 32767 ∧ ABInv x.ply alpha0 l) →
       (l.bestMove = 0 ∨ l.bestMove ∈ MoveGen.gen s.board) →
       let o := abLoop c L child x n l s
-      TTA TTok o.2 ∧ (∀ v, o.1 = .ret v → o.2.aborted = false → o.2.nmpOut = false → RelP x.ply v) ∧
+      TTA TTok t0 o.2 ∧ (∀ v, o.1 = .ret v → o.2.aborted = false → o.2.nmpOut = false → RelP x.ply v) ∧
         (∀ l', o.1 = .done l' → (o.2.nmpOut = false → ABInv x.ply alpha0 l') ∧
           (l'.bestMove = 0 ∨ l'.bestMove ∈ MoveGen.gen s.board) ∧ o.2.board = s.board) := by
   intro n
@@ -335,11 +357,11 @@ theorem flag_false {s : St σ} {a : Bool} (h : (s.flagNmp a).nmpOut = false) : s
 
 theorem nullMove_range (c : Comp σ π) (L : Limits) {Good : Board → Prop} {TTok : σ → Prop} (hl : Laws c Good)
     (child : Child σ) (hc : ABSpec c L Good child)
-    (hr : ABRange Good TTok child) (beta : Score) (d : Int) {ply : Int} (h0 : 0 ≤ ply) (h1 : ply < 63) (se : Score)
-    (s : St σ) (hg : Good s.board) (hchk : s.board.inCheck s.board.stm = false) (htt : TTA TTok s)
+    (hr : ABRange Good TTok t0 child) (beta : Score) (d : Int) {ply : Int} (h0 : 0 ≤ ply) (h1 : ply < 63) (se : Score)
+    (s : St σ) (hg : Good s.board) (hchk : s.board.inCheck s.board.stm = false) (htt : TTA TTok t0 s)
     (hb : s.nmpOut = false → -10000 ≤ beta ∧ beta ≤ 9936) :
     let o := nullMove c child beta d ply se s
-    TTA TTok o.2 ∧ (∀ v, o.1 = some v → o.2.aborted = false → o.2.nmpOut = false → RelP ply v) := by
+    TTA TTok t0 o.2 ∧ (∀ v, o.1 = some v → o.2.aborted = false → o.2.nmpOut = false → RelP ply v) := by
   simp only [nullMove]
   have hg' := hl.good_null s.board hg hchk
   have cc := callChild_post c L child hc (neg beta) (wrapS16 (neg beta + 1)) (c.nmpDepth d se beta) h0 h1 .cut
@@ -375,13 +397,13 @@ theorem nullMove_range (c : Comp σ π) (L : Limits) {Good : Board → Prop} {TT
 
 theorem abMoves_range (c : Comp σ π) (L : Limits) {Good : Board → Prop} {TTok : σ → Prop} {μ : Board → Nat}
     (hl : Laws c Good) (sl : ScoreLaws c Good TTok μ) (child : Child σ)
-    (hc : ABSpec c L Good child) (hr : ABRange Good TTok child) (alpha beta : Score) (d : Int)
+    (hc : ABSpec c L Good child) (hr : ABRange Good TTok t0 child) (alpha beta : Score) (d : Int)
     {ply : Int} (h0 : 0 ≤ ply) (h1 : ply < 63)
     (nt : NodeType) (inCheck improving : Bool) (se : Score) (hm : Move) (s : St σ) (hg : Good s.board)
     (hw : s.nmpOut = false → WinOK alpha beta)
-    (hfl : s.board.fifty < 100) (hhash : HashOK c s.board hm) (htt : TTA TTok s) :
+    (hfl : s.board.fifty < 100) (hhash : HashOK c s.board hm) (htt : TTA TTok t0 s) :
     let o := abMoves c L child alpha beta d ply nt inCheck improving se hm s
-    TTA TTok o.2 ∧ (o.2.aborted = false → o.2.nmpOut = false → RelP ply o.1) := by
+    TTA TTok t0 o.2 ∧ (o.2.aborted = false → o.2.nmpOut = false → RelP ply o.1) := by
   simp only [abMoves]
   generalize hx : ABCtx.mk alpha beta (if c.iir nt d hm then wrapS8 (d - 1) else d) ply nt inCheck improving se = x
   have hxp : x.ply = ply := by rw [← hx]
@@ -415,8 +437,6 @@ theorem abMoves_range (c : Comp σ π) (L : Limits) {Good : Board → Prop} {TTo
       rw [this]; exact hbest
     have hok' : PsInv.ok s'.popFrame.ps := htt'.1
     -- the flag after the store is the flag of the loop's last state, possibly raised at ply 0
-    have hA' : ∀ {ps : σ} {a : Bool}, ((s'.popFrame.setPs ps).flag a).nmpOut = false → s'.nmpOut = false :=
-      fun h => h
     simp only
     cases hh : l.hasLegal
     · have hmx : RelP ply (if inCheck = true then wrapS16 (-Inf + ply) else 0) := by
@@ -426,27 +446,32 @@ theorem abMoves_range (c : Comp σ π) (L : Limits) {Good : Board → Prop} {TTo
       simp only [Bool.not_false, if_true, Bool.false_eq_true, if_false]
       have hok2 := hl.ok_store s'.popFrame.ps s'.popFrame.board (if c.iir nt d hm then wrapS8 (d - 1) else d) ply
         l.bestMove (if inCheck = true then wrapS16 (-Inf + ply) else 0) .exact hok' hgb hbest'
-      exact ⟨⟨hok2, fun hA => sl.tt_store _ _ _ _ _ _ _ (htt'.2 (hA' hA)) h0 (by omega) hmx hok2⟩, fun _ _ => hmx⟩
+      exact ⟨⟨hok2, fun hA => ⟨sl.tt_store _ _ _ _ _ _ _ (htt'.2 (show s'.nmpOut = false from hA)).1 h0 (by omega) hmx hok2,
+        fun ht => flagTT_keep ((htt'.2 (show s'.nmpOut = false from hA)).2 ht) (not_bad_of_relP hmx)⟩⟩, fun _ _ => hmx⟩
     · simp only [Bool.not_true, Bool.false_eq_true, if_false]
-      refine ⟨?_, fun _ hA => (hinv (hA' hA)).mp hh⟩
+      refine ⟨?_, fun _ hA => (hinv (show s'.nmpOut = false from hA)).mp hh⟩
       split
       · have hok2 := hl.ok_store s'.popFrame.ps s'.popFrame.board (if c.iir nt d hm then wrapS8 (d - 1) else d) ply
           0 l.maxim .upper hok' hgb (Or.inl rfl)
-        exact ⟨hok2, fun hA => sl.tt_store _ _ _ _ _ _ _ (htt'.2 (hA' hA)) h0 (by omega) ((hinv (hA' hA)).mp hh) hok2⟩
+        exact ⟨hok2, fun hA => ⟨sl.tt_store _ _ _ _ _ _ _ (htt'.2 (show s'.nmpOut = false from hA)).1 h0 (by omega) ((hinv (show s'.nmpOut = false from hA)).mp hh) hok2,
+          fun ht => flagTT_keep ((htt'.2 (show s'.nmpOut = false from hA)).2 ht)
+            (not_bad_of_relP ((hinv (show s'.nmpOut = false from hA)).mp hh))⟩⟩
       · have hok2 := hl.ok_store s'.popFrame.ps s'.popFrame.board (if c.iir nt d hm then wrapS8 (d - 1) else d) ply
           l.bestMove l.maxim .exact hok' hgb hbest'
-        exact ⟨hok2, fun hA => sl.tt_store _ _ _ _ _ _ _ (htt'.2 (hA' hA)) h0 (by omega) ((hinv (hA' hA)).mp hh) hok2⟩
+        exact ⟨hok2, fun hA => ⟨sl.tt_store _ _ _ _ _ _ _ (htt'.2 (show s'.nmpOut = false from hA)).1 h0 (by omega) ((hinv (show s'.nmpOut = false from hA)).mp hh) hok2,
+          fun ht => flagTT_keep ((htt'.2 (show s'.nmpOut = false from hA)).2 ht)
+            (not_bad_of_relP ((hinv (show s'.nmpOut = false from hA)).mp hh))⟩⟩
 
 theorem abPrune_range (c : Comp σ π) (L : Limits) {Good : Board → Prop} {TTok : σ → Prop} {μ : Board → Nat}
     (hl : Laws c Good) (sl : ScoreLaws c Good TTok μ) (child : Child σ)
-    (hc : ABSpec c L Good child) (hr : ABRange Good TTok child) (alpha beta : Score) (d : Int)
+    (hc : ABSpec c L Good child) (hr : ABRange Good TTok t0 child) (alpha beta : Score) (d : Int)
     {ply : Int} (h0 : 0 ≤ ply) (h1 : ply < 63)
     (nt : NodeType) (inCheck improving : Bool) (se : Score) (hse : inCheck = false → -9935 ≤ se ∧ se ≤ 9935) (hm : Move) (s : St σ)
     (hw : s.nmpOut = false → WinOK alpha beta)
     (hg : Good s.board) (hfl : s.board.fifty < 100) (hhash : HashOK c s.board hm)
-    (hic : inCheck = s.board.inCheck s.board.stm) (htt : TTA TTok s) :
+    (hic : inCheck = s.board.inCheck s.board.stm) (htt : TTA TTok t0 s) :
     let o := abPrune c L child alpha beta d ply nt inCheck improving se hm s
-    TTA TTok o.2 ∧ (o.2.aborted = false → o.2.nmpOut = false → RelP ply o.1) := by
+    TTA TTok t0 o.2 ∧ (o.2.aborted = false → o.2.nmpOut = false → RelP ply o.1) := by
   simp only [abPrune]
   split
   · next hrfp =>
@@ -474,12 +499,12 @@ theorem abPrune_range (c : Comp σ π) (L : Limits) {Good : Board → Prop} {TTo
 
 theorem abBody_range (c : Comp σ π) (L : Limits) {Good : Board → Prop} {TTok : σ → Prop} {μ : Board → Nat}
     (hl : Laws c Good) (sl : ScoreLaws c Good TTok μ) (child : Child σ)
-    (hc : ABSpec c L Good child) (hr : ABRange Good TTok child) (alpha beta : Score) (d : Int)
+    (hc : ABSpec c L Good child) (hr : ABRange Good TTok t0 child) (alpha beta : Score) (d : Int)
     {ply : Int} (h0 : 0 ≤ ply) (h1 : ply < 63) (nt : NodeType) (s : St σ) (hw : s.nmpOut = false → WinOK alpha beta)
     (hg : Good s.board)
-    (hfl : s.board.fifty < 100) (htt : TTA TTok s) :
+    (hfl : s.board.fifty < 100) (htt : TTA TTok t0 s) :
     let o := abBody c L child alpha beta d ply nt s
-    TTA TTok o.2 ∧ (o.2.aborted = false → o.2.nmpOut = false → RelP ply o.1) := by
+    TTA TTok t0 o.2 ∧ (o.2.aborted = false → o.2.nmpOut = false → RelP ply o.1) := by
   simp only [abBody]
   split
   · next v hcut =>
@@ -487,7 +512,7 @@ theorem abBody_range (c : Comp σ π) (L : Limits) {Good : Board → Prop} {TTok
     split at hcut
     · next e he =>
       split at hcut
-      · exact ttCut_relP (sl.tt_probe _ _ _ _ (htt.2 hA) h0 (by omega) he) hcut
+      · exact ttCut_relP (sl.tt_probe _ _ _ _ (htt.2 hA).1 h0 (by omega) he) hcut
       · cases hcut
     · cases hcut
   · refine abPrune_range c L hl sl child hc hr alpha beta d h0 h1 nt _ _ _ ?_ _ s hw hg hfl
@@ -500,7 +525,7 @@ theorem abBody_range (c : Comp σ π) (L : Limits) {Good : Board → Prop} {TTok
     un-aborted with the ghost flag down, and keeps the table predicate as long as the flag is down. -/
 theorem alphaBeta_range (c : Comp σ π) (L : Limits) {Good : Board → Prop} {TTok : σ → Prop} {μ : Board → Nat}
     (hl : Laws c Good) (sl : ScoreLaws c Good TTok μ) (fuel : Nat) :
-    ABRange Good TTok (alphaBeta c L fuel) := by
+    ABRange Good TTok t0 (alphaBeta c L fuel) := by
   induction fuel with
   | zero => intro a b d ply nt s _ _ _ _ htt; exact ⟨htt.congr rfl rfl, fun h => by cases h⟩
   | succ fuel ih =>
@@ -515,16 +540,19 @@ theorem alphaBeta_range (c : Comp σ π) (L : Limits) {Good : Board → Prop} {T
       have i1 := incrementNodes_frame L (s.setPv (s.pv.setNull ply.toNat))
       have ips := incrementNodes_ps L (s.setPv (s.pv.setNull ply.toNat))
       have ian := incrementNodes_nmpOut L (s.setPv (s.pv.setNull ply.toNat))
-      generalize incrementNodes L (s.setPv (s.pv.setNull ply.toNat)) = s1 at i1 ips ian ⊢
+      have itt := incrementNodes_ttOut L (s.setPv (s.pv.setNull ply.toNat))
+      generalize incrementNodes L (s.setPv (s.pv.setNull ply.toNat)) = s1 at i1 ips ian itt ⊢
       have a1 := abort_frame L { s1 with abNodes := s1.abNodes + 1 }
       have aps := abort_ps L { s1 with abNodes := s1.abNodes + 1 }
       have aan := abort_nmpOut L { s1 with abNodes := s1.abNodes + 1 }
+      have att := abort_ttOut L { s1 with abNodes := s1.abNodes + 1 }
       have hat := abort_true_iff L { s1 with abNodes := s1.abNodes + 1 }
-      generalize abort L { s1 with abNodes := s1.abNodes + 1 } = as at a1 aps aan hat ⊢
+      generalize abort L { s1 with abNodes := s1.abNodes + 1 } = as at a1 aps aan att hat ⊢
       have hps : as.2.ps = s.ps := by rw [aps]; exact ips
       have han : as.2.nmpOut = s.nmpOut := by rw [aan]; exact ian
+      have hatt : as.2.ttOut = s.ttOut := by rw [att]; exact itt
       have hb : as.2.board = s.board := by rw [a1.board]; exact i1.board
-      have htt' : TTA TTok as.2 := htt.congr hps han
+      have htt' : TTA TTok t0 as.2 := htt.congr hps han hatt
       split
       · next hab => exact ⟨htt', fun hna => by rw [← hat, hab] at hna; cases hna⟩
       · split
